@@ -376,7 +376,11 @@ Definition enc_sset (st : bstate) (sid : nat) : res (bstate * lrec) :=
   end.
 
 Definition payload_of (p : payload_in) : res payload :=
-  match p with PayBytes b => OK (PBytes b) | PayText s => OK (PText s) | PayOther => Err EOther end.
+  match p with
+  | PayBytes b => if all_bytes b then OK (PBytes b) else Err EOther      (* a Python bytes object only holds 0..255 *)
+  | PayText s => OK (PText s)
+  | PayOther => Err EOther
+  end.
 
 Definition lf_records (st : bstate) (f : lfile) (frames : list (nat * list (list slot))) : res (bstate * list lrec) :=
   (* FILE-HEADER *)
